@@ -251,7 +251,15 @@ def arg_cases():
     return od20, mal, f21, email
 
 
-OPS = 25
+OPS = 33
+
+
+def CompositeLatest(dicts):
+    from stix2.datastore import CompositeDataSource
+    from stix2.datastore.memory import MemorySource
+    c = CompositeDataSource()
+    c.add_data_sources([MemorySource([d], allow_custom=True) for d in dicts])
+    return c.get(dicts[0]["id"]), c.all_versions(dicts[0]["id"]), c.query([])
 
 
 def arguments_unchanged(op: int, twice: bool) -> bool:
@@ -324,6 +332,27 @@ def run_arg_case(op, twice):
         23: ([objs16, one21, rel16b], lambda: stix2.v21.Bundle(objs16, one21, rel16b)),
         # ONE factory with list defaults, per-call values given singly (appended to the defaults)
         24: ([kw24, dflt8, marks8], lambda: factory8.create(stix2.v21.Malware, object_marking_refs=M2, external_references={"source_name": "e", "external_id": "3"}, **kw24)),
+    })
+    # inputs that are NOT in the form the library would write: spellings it normalises (hash algorithm names, timestamps without the
+    # millisecond digits, dict-kept objects of unregistered types) -- normalising is done on the library's copy, never on the caller's
+    h25 = {"sha256": "0" * 64, "md5": "0" * 32}
+    er26 = [{"source_name": "s", "external_id": "1", "hashes": {"sha-1": "0" * 40}}]
+    mal26 = dict(mal, external_references=[{"source_name": "s", "external_id": "1", "hashes": {"md5": "0" * 32, "SHA256": "0" * 64}}], created="2020-01-01T00:00:00Z",
+                 modified="2020-01-01T00:00:00.5Z")
+    unreg = {"type": "x-unreg", "spec_version": "2.1", "id": "x-unreg--" + UU, "created": "2020-01-01T00:00:00Z", "modified": "2020-01-01T00:00:00.5Z", "x_h": {"md5": "0"}}
+    unreg_b = {"type": "bundle", "id": "bundle--" + UU, "objects": [unreg, dict(unreg, modified="2020-01-02T00:00:00Z")]}
+    od26 = json.loads(json.dumps(od20))
+    od26["objects"]["0"]["hashes"] = {"md5": "0" * 32}
+    od26["first_observed"] = "2020-01-01T00:00:00.000000Z"
+    table.update({
+        25: ([h25], lambda: (stix2.v21.File(name="f", hashes=h25), stix2.v20.File(name="f", hashes=h25), stix2.v21.ExternalReference(source_name="s", hashes=h25))),
+        26: ([mal26, er26], lambda: (stix2.parse(mal26), stix2.v21.Identity(name="i", external_references=er26), versioning.new_version(mal26, external_references=er26))),
+        27: ([unreg], lambda: (MemoryStore(allow_custom=True).add(unreg), MemoryStore([unreg], allow_custom=True).query(), stix2.Environment(store=MemoryStore(allow_custom=True)).add(unreg))),
+        28: ([unreg_b], lambda: (MemoryStore(allow_custom=True).add(unreg_b), stix2.parse(unreg_b, allow_custom=True), stix2.v21.Bundle(unreg, allow_custom=True).serialize())),
+        29: ([od26], lambda: (stix2.parse(od26, version="2.0"), MemoryStore([od26], version="2.0").query())),
+        30: ([unreg], lambda: CompositeLatest([unreg, dict(unreg, modified="2020-01-01T00:00:00.500Z")])),
+        31: ([unreg], lambda: (versioning.new_version(unreg, x_h={"sha1": "1"}), versioning.revoke(unreg), markings.add_markings(unreg, M1))),
+        32: ([mal26], lambda: (markings.add_markings(mal26, M1, ["external_references.[0].hashes.md5"]), markings.get_markings(mal26, "external_references.[0].hashes"))),
     })
     args, fn = table[op]
 
@@ -546,3 +575,65 @@ def run_every_class_case(ci):
         if "id" in o:
             MemoryStore([o]).query()
     return o.serialize() == before and json.dumps(arg, sort_keys=True) == snap
+
+
+# ---- objects the library handed out earlier keep their behaviour: environments do not share defaults, decorated classes are left as they were
+def earlier_objects_unaffected(case: int) -> bool:
+    """
+    pre: 0 <= case <= 3
+    post: _
+    """
+    case = pick(case, 4)
+    with Native():
+        ok = run_earlier_case(case)
+    V.reached()
+    return ok
+
+
+def run_earlier_case(case):
+    from stix2 import properties as SP
+    creator = "identity--" + UU
+    if case == 0:
+        e1, e2 = stix2.Environment(), stix2.Environment()
+        before = e2.create(stix2.v21.Identity, name="n")
+        e1.set_default_creator(creator)
+        e1.set_default_external_refs([{"source_name": "s", "external_id": "1"}])
+        after = e2.create(stix2.v21.Identity, name="n")
+        fresh = stix2.Environment().create(stix2.v21.Identity, name="n")
+        return all("created_by_ref" not in o and "external_references" not in o for o in (before, after, fresh))
+    if case == 1:
+        f1, f2 = ObjectFactory(), ObjectFactory()
+        f1.set_default_creator(creator)
+        return "created_by_ref" not in f2.create(stix2.v21.Identity, name="n")
+    # a class handed to a registration decorator is the caller's: it keeps exactly the attributes it had (also when the registration is refused),
+    # and can be registered again under another name
+    ext = "extension-definition--d13d13d1-f010-4473-83ec-1edf8485%04x" % (case * 7 + len(stix2.registry.STIX2_OBJ_MAPS["2.1"]["extensions"]))
+
+    class Plain:
+        pass
+    attrs = set(vars(Plain))
+    deco = stix2.v21.CustomObject if case == 2 else stix2.v21.CustomObservable
+    taken = "identity" if case == 2 else "file"
+    try:
+        deco(taken, [("p", SP.StringProperty())], extension_name=ext)(Plain)
+        return False
+    except (STIXError, ValueError):
+        pass
+    if set(vars(Plain)) != attrs:
+        return False
+    name = "x-c13-%s-%d" % ("obj" if case == 2 else "sco", len(stix2.registry.STIX2_OBJ_MAPS["2.1"]["extensions"]))
+    good = deco(name, [("p", SP.StringProperty())], extension_name=ext)(Plain)
+    if set(vars(Plain)) != attrs:
+        return False
+    plain_name = name + "b"
+    again = deco(plain_name, [("p", SP.StringProperty())])(Plain)          # the same class, no extension this time
+    try:
+        a, b = good(p="v"), again(p="v")
+    except Exception:  # noqa: BLE001
+        return False
+    ok = ext in a.get("extensions", {}) and "extensions" not in b
+    for cat in ("objects", "observables"):
+        for n in (name, plain_name):
+            stix2.registry.STIX2_OBJ_MAPS["2.1"][cat].pop(n, None)
+    stix2.registry.STIX2_OBJ_MAPS["2.1"]["extensions"].pop(ext, None)
+    return ok
